@@ -19,7 +19,7 @@ LOGGER = LOGGER
 class FakeServer:
     def __init__(self, version=7):
         self.lock = threading.Lock()
-        self.dbs = defaultdict(lambda: Database(self.lock))
+        self.dbs = defaultdict(self._new_db)
         # Maps SHA1 to script source
         self.script_cache = {}
         # Maps channel/pattern to weak set of sockets
@@ -30,6 +30,15 @@ class FakeServer:
         # List of weakrefs to sockets that are being closed lazily
         self.closed_sockets = []
         self.version = version
+
+    def _new_db(self):
+        db = Database(self.lock)
+        # A database created while a command is running (SELECT or SWAPDB inside
+        # EXEC, MOVE) must see the same clock as the existing ones
+        for other in self.dbs.values():
+            db.time = other.time
+            break
+        return db
 
 
 class FakeConnection(redis.Connection):
